@@ -79,9 +79,22 @@ func (c *Ctx) Floor(rule, what string, got, min int) {
 // condition can be necessary for two properties (e.g. "pruning unlinks only empty nodes"
 // for state reclamation and for lookup correctness), and each property reports it itself.
 // At least `floor` obligations must be taken over.
+// importDepth > 0 while a rule table runs on behalf of another property.
+var importDepth int
+
 func (c *Ctx) Import(other func(*Ctx), rule, why string, floor int, match func(key string) bool) {
+	if importDepth > 0 {
+		// a table that is itself being run for another property's Import does not run its
+		// own imports (two tables may import from each other; only a table's own
+		// obligations are ever taken over)
+		return
+	}
+	importDepth++
 	sub := NewCtx(c.P, c.Prop, c.Tier)
-	other(sub)
+	func() {
+		defer func() { importDepth-- }()
+		other(sub)
+	}()
 	n := 0
 	for _, o := range sub.Obls {
 		if !match(o.Key) {
